@@ -148,6 +148,7 @@ PROPS = {
             R("h26", "c04", "TestC04_Random", (4000, 8, 500), (400000, 16, 10000)),
             E("h26", "c04", "TestC04_Exhaustive", (8, 500), (16, 10000)),
             R("h26", "c04", "TestC04_QueuedAnnounce", (1200, 8, 600), (100000, 16, 10000)),
+            R("h26", "c04", "TestC04_Rounds", (800, 8, 400), (80000, 16, 10000)),
         ],
     },
     "C06": {
@@ -187,6 +188,7 @@ PROPS = {
         "units": [
             R("h26", "c08", "TestC08_Scripts", (4000, 8, 400), (300000, 16, 10000)),
             R("h26", "c08", "TestC08_LongSync", (600, 4, 400), (40000, 16, 10000)),
+            R("h26", "c08", "TestC08_Rounds", (800, 8, 400), (80000, 16, 10000)),
         ],
     },
     "C14": {
@@ -198,12 +200,14 @@ PROPS = {
             R("h26", "c14", "TestC14_CloseDuringSync", (400, 8, 400), (40000, 16, 10000)),
             R("h26", "c14", "TestC14_ManyListeners", (300, 8, 400), (30000, 16, 10000)),
             R("h26", "c14", "TestC14_BackToBack", (160, 8, 400), (16000, 16, 10000)),
+            R("h26", "c14", "TestC14_Rounds", (800, 8, 400), (80000, 16, 10000)),
         ],
     },
     "C15": {
         "level": "exploration",
         "units": [
             R("h26", "c15", "TestC15_Scripts", (3000, 8, 400), (200000, 16, 10000)),
+            R("h26", "c15", "TestC15_SlowHook", (400, 8, 400), (40000, 16, 10000)),
         ],
     },
 }
